@@ -47,6 +47,7 @@ func Copy(ctx context.Context, ids []ChunkID, src Store, dst WriteStore, n int, 
 	var interrupted bool
 loop:
 	for _, c := range ids {
+		verifYield("copy.feeder")
 		select {
 		case <-ctx.Done():
 			interrupted = true
